@@ -12,9 +12,10 @@ Qed.
 Lemma accept_spec out :
   accept out = true <->
   completed 0 out = true /\ completed 1 out = true /\ completed 2 out = true
-  /\ stream_of 1 out = stream_of 0 out /\ stream_of 2 out = stream_of 0 out.
+  /\ stream_of 1 out = stream_of 0 out /\ stream_of 2 out = stream_of 0 out
+  /\ completed 3 out = completed 4 out /\ stream_of 4 out = stream_of 3 out.
 Proof.
-  unfold accept. rewrite !andb_true_iff, !stream_eqb_spec. tauto.
+  unfold accept. rewrite !andb_true_iff, !stream_eqb_spec, Bool.eqb_true_iff. tauto.
 Qed.
 
 Lemma run_nestw_spec w : run_nestw w = [[1]] <-> accept (after_marker w) = true.
